@@ -18,7 +18,10 @@ def c18OpOfJson (j : Json) : R C18.Op := do
       | some v => some <$> listOf natOfJson v
       | none => pure none
     pure (.rotate Q n)
-  | none => pure .clear
+  | none =>
+    match fldOpt j "unknown" with
+    | some _ => pure .unknown
+    | none => pure .clear
 
 /-- state after one call: error flag, accumulated rotation, current field, and (for a
 successful rotate) the boundary-comparator data: per-cell margins and the cubes behind the
@@ -74,6 +77,39 @@ def c18 (op : String) (j : Json) : Option (R Json) :=
         pure (Json.mkObj [("ok", listJ ratsJ (pts.map fun p =>
           valuesAt f M3.one ord (V3.ofList p))),
           ("margins", ratsJ (pts.map fun p => margin f (V3.ofList p)))])
+  | "mrp" => some do
+      -- from_mrp: modified Rodrigues parameters (rational)
+      let p ← rats j "p"
+      let Q := M3.ofMrp (V3.ofList p)
+      pure (Json.mkObj [("ok", m3ToJson Q), ("is_rot", .bool (decide Q.IsRot))])
+  | "align" => some do
+      -- rotate("align_vector", initial=…, final=…) for vectors of equal length
+      let i ← rats j "initial"
+      let f ← rats j "final"
+      let Q := M3.ofAlign (V3.ofList i) (V3.ofList f)
+      pure (Json.mkObj [("ok", m3ToJson Q), ("is_rot", .bool (decide Q.IsRot))])
+  | "rq" => some do
+      -- quarter turn k·90° in the plane of axes (p, q): the matrix of C12's rotate90
+      let p ← natOfJson (← fld j "p")
+      let q ← natOfJson (← fld j "q")
+      let k ← intOfJson (← fld j "k")
+      let Q := Rq p q k
+      pure (Json.mkObj [("ok", m3ToJson Q), ("is_rot", .bool (decide Q.IsRot))])
+  | "raxis" => some do
+      -- from_rotvec(k·π/2·e_a)
+      let a ← natOfJson (← fld j "a")
+      let k ← intOfJson (← fld j "k")
+      pure (Json.mkObj [("ok", m3ToJson (Raxis a k))])
+  | "euler" => some do
+      -- from_euler(seq, angles) with quarter-turn angles; axes 0/1/2, upper case = intrinsic
+      let intr ← boolOfJson (← fld j "intrinsic")
+      let axes ← nats j "axes"
+      let ks ← ints j "ks"
+      pure (Json.mkObj [("ok", m3ToJson (eulerQ intr (axes.zip ks)))])
+  | "argsort" => some do
+      -- np.argsort on distinct keys (ordered_idx.argsort())
+      let l ← nats j "l"
+      pure (Json.mkObj [("ok", natsJ (argsortL l)), ("inv", natsJ ((List.range l.length).map (invAt l)))])
   | "roundcbrt" => some do
       let q ← ratOfJson (← fld j "q")
       pure (Json.mkObj [("ok", .num (JsonNumber.fromNat (roundCbrt q)))])
